@@ -179,4 +179,40 @@ theorem best_known_keys_partial (keys : List Str) (k : Str) (cands : List Cand)
 
 example : exCands.all (fun c => c.localNames.contains ['x']) = true := by decide
 
+
+/-! ## 9. the strict conversion setting of `bind_best_dataclass` stays with the candidates -/
+
+/-- the candidates are tried with conversions strict and the two other flags as given -/
+theorem candidate_config_spec (cfg : ParserConfig) :
+    (candidateConfig cfg).failOnConverterWarnings = true
+    ∧ (candidateConfig cfg).failOnUnknownProperties = cfg.failOnUnknownProperties
+    ∧ (candidateConfig cfg).failOnUnknownAttributes = cfg.failOnUnknownAttributes := ⟨rfl, rfl, rfl⟩
+
+/-- **best_match_config_local**: whatever items (conversions, best-match bindings, over any
+number of documents) a decoder works through, its own configuration afterwards is the one
+the caller passed, and every item is treated exactly as if it were the first: the outcome
+list is the item-wise outcome under the caller's configuration. -/
+theorem best_match_config_local (cfg : ParserConfig) (ws : List Work) :
+    (workAll cfg ws).2 = cfg ∧ (workAll cfg ws).1 = ws.map (fun w => (workStep cfg w).1) := by
+  induction ws with
+  | nil => exact ⟨rfl, rfl⟩
+  | cons w ws ih =>
+    have hstep : (workStep cfg w).2 = cfg := by cases w <;> rfl
+    simp only [workAll, hstep, List.map_cons]
+    exact ⟨ih.1, by rw [ih.2]⟩
+
+/-- **convert_after_best_lenient**: with `fail_on_converter_warnings` off an unconvertible
+scalar is kept with a warning wherever it comes — before or after best-match fields, in the
+same or a later document of the same decoder. -/
+theorem convert_after_best_lenient {cfg : ParserConfig} (hc : cfg.failOnConverterWarnings = false)
+    (pre post : List Work) :
+    (workAll cfg (pre ++ .convert true :: post)).1[pre.length]? = some (.ok .warned) := by
+  rw [(best_match_config_local cfg _).2]
+  simp [workStep, hc]
+
+/- non-vacuity: a best-match item followed by a failing conversion, lenient configuration -/
+example : (workAll { failOnConverterWarnings := false }
+      [.best [['x']] [⟨"Base".toList, [['x']], fun c => if c.failOnConverterWarnings then some 2 else some 3⟩], .convert true]).1
+    = [.ok (.chose "Base".toList), .ok .warned] := by rfl
+
 end Props.C10
